@@ -63,7 +63,7 @@ Proof.
       apply threads_neq. apply (set_nth_changes _ _ th); [exact Hn|].
       apply code_neq. cbn [code]. rewrite Hc, Hprog. discriminate.
     + rewrite Hprog, Hctr.
-      destruct (key_in hdr_test_key (hdrs th)); apply threads_neq;
+      destruct (supplied_test (hdrs th)); apply threads_neq;
         apply (set_nth_changes _ _ th); try exact Hn;
         apply code_neq; cbn [code]; rewrite Hc, Hprog; discriminate.
     + apply threads_neq. apply (set_nth_changes _ _ th); [exact Hn|].
